@@ -20,7 +20,7 @@ CONF = {
     'C02': dict(
         inv=['InvC02', 'InvViews'],
         mc=[('topology', ['Submit', 'RemoveApp', 'Down', 'Up', 'RemoveServer', 'AddServer', 'Tick'], None)],
-        gen=['topology', 'topology', 'base', 'affinity', 'identity'], probe=True,
+        gen=['topology', 'tracker', 'base', 'affinity', 'identity'], probe=True,
         rule='a history counts when a probe instance is submitted to a quiescent cell and the leaf-scan oracle finds an up server that takes it as it is; distinct = distinct environment histories'),
     'C03': dict(
         inv=['InvC03', 'InvViews'],
@@ -116,7 +116,7 @@ def _gen(ctx, prop):
     return out
 
 
-L2_PROPS = {'C01': 120, 'C03': 80, 'C05': 60, 'C08': 60, 'C06': 20, 'C07': 20}
+L2_PROPS = {'C01': 160, 'C03': 120, 'C05': 100, 'C08': 100, 'C06': 120, 'C07': 40}
 
 
 def _l2_traces(ctx, prop, histories=None):
